@@ -112,7 +112,8 @@ def table_of(x):
     ty = nd['type'].astype(object).values if 'type' in nd.columns else [None] * len(nd)
     out = []
     for i, p, t in zip(nd.node_id.values, nd.parent_id.values, ty):
-        out.append((int(i), int(p), TYPE_CODE.get(t, -9)))
+        # a missing id / parent (NaN) is kept visible as a value no table can contain, so that the well-formedness checker rejects it
+        out.append((int(i) if i == i else -999998, int(p) if p == p else -999999, TYPE_CODE.get(t, -9)))
     return out
 
 
